@@ -20,6 +20,7 @@ import collections
 import json
 import os
 import random
+import signal
 import subprocess
 
 import kit
@@ -27,6 +28,38 @@ import kit
 LEVEL = "model_checking"
 
 READ_SIZE = 4096
+
+
+class StageTimeout(Exception):
+    """a whole harness call ran into its outer timeout (its process group has been killed)"""
+
+
+def harness_pg(ctx, args, timeout):
+    """Run out/bin/c17 <args> in its own process group with an outer timeout.  On expiry the whole group is killed
+    (the re-exec'ed parent workers and real samaritan processes included) and StageTimeout is raised.  The waits
+    inside the harness have their own, much shorter deadlines; this is the last line of defence."""
+    env = kit.goenv()
+    env.update({"VERIF_SEED": str(ctx.seed), "VERIF_TIER": ctx.tier})
+    p = subprocess.Popen([os.path.join(kit.BIN_DIR, "c17")] + list(args), stdout=subprocess.PIPE, stderr=subprocess.PIPE,
+                         text=True, errors="replace", env=env, cwd=kit.ROOT, start_new_session=True)
+    try:
+        so, se = p.communicate(timeout=timeout)
+    except subprocess.TimeoutExpired:
+        try:
+            os.killpg(p.pid, signal.SIGKILL)
+        except ProcessLookupError:
+            pass
+        try:
+            so, se = p.communicate(timeout=10)
+        except Exception:
+            so, se = "", ""
+        raise StageTimeout("%s did not finish within %ds (process group killed)" % (args[0], timeout))
+    # after a normal exit nothing of the group is left: the driver stops or kills its workers itself, and a worker
+    # whose command pipe is closed exits on its own within 2 s (parent.go)
+    if se.strip():
+        with open(os.path.join(ctx.work, "harness.stderr"), "a") as f:
+            f.write("== %s\n%s\n" % (" ".join(args), se[-20000:]))
+    return p.returncode, so, se
 
 
 # --------------------------------------------------------------------------- frames
@@ -104,7 +137,7 @@ def run_frames(ctx, vec, net):
     vfile = os.path.join(ctx.work, "vectors.ndjson")
     kit.write_ndjson(vfile, vec)
     rfile = os.path.join(ctx.work, "frames-%s.ndjson" % net)
-    rc, so, se = ctx.harness(["c17-frames", "-in", vfile, "-out", rfile, "-net", net], timeout=300, allow_fail=True)
+    rc, so, se = harness_pg(ctx, ["c17-frames", "-in", vfile, "-out", rfile, "-net", net], 180 if ctx.thorough else 60)
     res = kit.read_ndjson(rfile) if os.path.exists(rfile) else []
     if rc != 0 or len(res) != len(vec):
         # the harness recovers panics of the functions under test; dying is an infrastructure problem
@@ -180,6 +213,16 @@ def judge_seq(b, r):
     badtxt = ""
     if bad:
         badtxt = " malformed unit(s): " + ", ".join("%s type=%d declared=%d carried=%d" % (x["cls"], x["type"], x["declared"], x["carried"]) for x in bad)
+    bl = r.get("blocked")
+    if bl:
+        # a hang of the real code: the statement says a child that disappears does not prevent a later child from
+        # completing the hand-over, so this is a violation, not an infrastructure problem
+        out.append(("handover/later-child-blocked-after-drop",
+                    "child %d (%s) sent %s after child(ren) %s had hung up and got no %s within %s; the old process was alive and "
+                    "had performed %s so far | script: %s%s" % (
+                        bl["child"], bl["where"], bl["step"], bl["dropped"], "Instance call" if bl["waited"] == "step" else "reply",
+                        bl["deadline"], bl["performed"], script, badtxt)))
+        return out
     if r["parentDied"]:
         sig = "seq/parent-died-on-malformed-frame" if bad else "seq/parent-died"
         out.append((sig, "the old process died: %s | script: %s%s" % (r.get("parentLog", "")[:300], script, badtxt)))
@@ -235,11 +278,29 @@ def run_sequences(ctx, behs, pool, mode, label):
             "-log", os.path.join(ctx.work, "parent-%s.log" % label)]
     if mode == "real":
         args.append("-api")
-    rc, so, se = ctx.harness(args, timeout=1200, allow_fail=True)
+    try:
+        rc, so, se = harness_pg(ctx, args, 900 if ctx.thorough else 60)
+    except StageTimeout:
+        # the driver writes every record unbuffered: what it saw before the timeout is on disk and is judged
+        partial = []
+        try:
+            partial = kit.read_ndjson(rfile) if os.path.exists(rfile) else []
+        except Exception:
+            pass
+        byid0 = {b["id"]: b for b in behs}
+        for r in partial:
+            if r.get("blocked") and r["id"] in byid0:
+                sig, text = judge_seq(byid0[r["id"]], r)[0]
+                ctx.violation(sig, text, {"behaviour": byid0[r["id"]], "result": r})
+        raise
     res = kit.read_ndjson(rfile) if os.path.exists(rfile) else []
     api = [r for r in res if r["src"] == "api"]
-    res = [r for r in res if r["src"] != "api"]
-    if rc != 0 or len(res) != len(behs):
+    stopped = [r for r in res if r["src"] == "stopped"]
+    res = [r for r in res if r["src"] not in ("api", "stopped")]
+    if stopped:
+        ctx.notes.append("c17-seq (%s) stopped after %d of %d behaviours: %s" % (label, len(res), len(behs), stopped[0]["stopped"]["why"]))
+        ctx.cov.setdefault("stopped_early", {})[label] = stopped[0]["stopped"]
+    if rc != 0 or (len(res) != len(behs) and not stopped):
         raise kit.Inconclusive("c17-seq (%s) exited %d after %d of %d behaviours: %s" % (label, rc, len(res), len(behs), se[-1500:]))
     infra = [r for r in res if r.get("infra") or any(i["k"] in ("connect-failed", "send-failed") for i in r["issues"]) and not r["parentDied"]]
     if len(infra) > max(3, len(behs) // 100):
@@ -264,7 +325,7 @@ def run_sequences(ctx, behs, pool, mode, label):
         for sig, text in v:
             found.setdefault(sig, []).append({"behaviour": b, "result": r, "what": text})
         for i in r["issues"]:
-            if i["k"] in ("shutdown-hangs", "no-eof", "served-after-exit", "bad-frame-not-consumed"):
+            if i["k"] in ("shutdown-hangs", "no-eof", "served-after-exit", "bad-frame-not-consumed", "behaviour-deadline", "api-hangs"):
                 ctx.notes.append("behaviour %d (%s): %s: %s" % (r["id"], label, i["k"], i["d"]))
     for a in api:
         if a.get("infra"):
@@ -286,7 +347,7 @@ def run_sequences(ctx, behs, pool, mode, label):
         t["kinds"] = kinds.get(t["id"], [])
     ctx.cov.setdefault("sequences", {})[label] = {"behaviours": len(behs), "as_modelled": clean,
                                                  "ms": sum(r.get("ms", 0) for r in res)}
-    return found, traces
+    return found, traces, bool(stopped)
 
 
 def validate(ctx, traces, cap):
@@ -377,7 +438,7 @@ def run_e2e(ctx, behs):
     infile = os.path.join(ctx.work, "e2e-runs.ndjson")
     kit.write_ndjson(infile, runs)
     rfile = os.path.join(ctx.work, "e2e.ndjson")
-    rc, so, se = ctx.harness(["c17-e2e", "-bin", binp, "-in", infile, "-out", rfile, "-work", ctx.work], timeout=600, allow_fail=True)
+    rc, so, se = harness_pg(ctx, ["c17-e2e", "-bin", binp, "-in", infile, "-out", rfile, "-work", ctx.work], 300 if ctx.thorough else 60)
     res = kit.read_ndjson(rfile) if os.path.exists(rfile) else []
     if rc != 0 or len(res) != len(runs):
         raise kit.Inconclusive("c17-e2e exited %d after %d of %d runs: %s" % (rc, len(res), len(runs), se[-1000:]))
@@ -430,6 +491,18 @@ def run_e2e(ctx, behs):
 # --------------------------------------------------------------------------- main
 
 def run(ctx):
+    try:
+        run_stages(ctx)
+    except StageTimeout as e:
+        # outer timeout of a harness call: an infrastructure matter unless the real code already showed violations
+        if not ctx.violations and not ctx.known_hits:
+            raise kit.Inconclusive(str(e))
+        ctx.notes.append("stopped: %s; the violations recorded before stand" % e)
+        if not ctx.cov["rule"]:
+            ctx.cov["rule"] = "run cut short by a harness timeout after violations had been recorded; see notes"
+
+
+def run_stages(ctx):
     ctx.build()
     rnd = random.Random(ctx.seed)
     ctx.assumptions += [
@@ -477,10 +550,14 @@ def run(ctx):
         b["id"] = i
     ctx.sample({"behaviour": [(e["a"], e["c"], e["x"]) for e in next(b for b in behs if b["src"] == "drop" and len(b["beh"]) > 14)["beh"]]})
     pool = bad_pool(vec)
-    _, traces = run_sequences(ctx, behs, pool, "real", "real")
+    _, traces, stopped = run_sequences(ctx, behs, pool, "real", "real")
     # exact count of terminate signals: the package's kill variable records instead of signalling
     withterm = [b for b in behs if any(e["a"] == "kill" for e in b["beh"])]
-    _, traces2 = run_sequences(ctx, withterm, pool, "hook", "hook")
+    traces2 = []
+    if stopped:
+        ctx.notes.append("the run with the recording kill variable was skipped: the real-signal run stopped early on blocked later children")
+    else:
+        _, traces2, _ = run_sequences(ctx, withterm, pool, "hook", "hook")
 
     # 5. observed events against the specification
     # real SIGTERM is observed asynchronously, so for behaviours with a terminate the run with the recording kill
